@@ -53,6 +53,7 @@ fn main() {
         "C03" => props::c03::run(&a),
         "C16" => props::c03::run_prop(&a, "C16", 16),
         "C01" => props::c01::run(&a),
+        "C02" => props::c02::run(&a),
         "C08" => props::c08::run(&a),
         "C05" => props::c05::run_prop(&a, "C05", 5),
         "C06" => props::c05::run_prop(&a, "C06", 6),
